@@ -110,8 +110,13 @@ def cmd_check(prop, tier, seed, args):
         print("KNOWN-FINDING: property=%s %s [cause_key=%s, hit in %d runs]" % (prop, k["what"], ck, n))
     nviol = len(total["violations"]) + total["more_violations"]
     rc = 0
-    if total["violations"]:
-        v = total["violations"][0]
+    if total["viol_keys"]:
+        print("violation cause keys in this batch: %s" % json.dumps(total["viol_keys"], sort_keys=True))
+    # one replay per distinct cause key (first run index each), at most 4
+    firsts = {}
+    for v in total["violations"]:
+        firsts.setdefault(v["violation"]["cause_key"], v)
+    for v in sorted(firsts.values(), key=lambda x: x["idx"])[:8]:
         case, vrec = v["case"], v["violation"]
         shrunk, execs = core.shrink(case, vrec)
         r = core.run_case(shrunk)
